@@ -509,18 +509,21 @@ class Envelope:
         # Handle the measurement if the state is in composite envelope product state
         if self.composite_envelope_id is not None:
             assert self.composite_envelope is not None
-            return self.composite_envelope.measure_POVM(operators, *states)
+            return self.composite_envelope.measure_POVM(
+                operators, *states, destructive=destructive
+            )
 
         # Expand to matrix state if not alreay in it
         assert isinstance(self.expansion_level, ExpansionLevel)
         while self.expansion_level < ExpansionLevel.Matrix:
             self.expand()
 
-        self.reorder(*states)
-        C = Config()
-
         if len(states) == 2 and self.state is None:
             self.combine()
+
+        # The order of the states has to reflect the tensoring of the operators
+        self.reorder(*states)
+        C = Config()
 
         reshape_shape = [-1, -1]
         assert isinstance(self.fock.index, int) and isinstance(
@@ -540,19 +543,11 @@ class Envelope:
             for op in operators:
                 assert op.shape == (self.dimensions, self.dimensions)
 
-            # Produce einsum str
-            einsum = "eacf,abcd,gbhd->egfh"
-            # Compute probabilities
+            # The states are ordered as the operators are tensored, so the
+            # operators act directly on the density matrix of the envelope
             probabilities = []
             for op in operators:
-                op = op.reshape([*reshape_shape, *reshape_shape]).transpose(
-                    [0, 2, 1, 3]
-                )
-                prob_state = (
-                    jnp.einsum(einsum, op, ps, jnp.conj(op))
-                    .transpose([0, 2, 1, 3])
-                    .reshape(self.dimensions, self.dimensions)
-                )
+                prob_state = jnp.matmul(op, jnp.matmul(self.state, jnp.conj(op.T)))
                 probabilities.append(jnp.trace(prob_state).real)
 
             probs = jnp.array(probabilities) / jnp.sum(jnp.array(probabilities))
@@ -563,16 +558,8 @@ class Envelope:
             )
 
             # Constructing post measurement state
-            op = (
-                operators[choice]
-                .reshape([*reshape_shape, *reshape_shape])
-                .transpose([0, 2, 1, 3])
-            )
-            self.state = (
-                jnp.einsum(einsum, op, ps, np.conj(op))
-                .transpose([0, 2, 1, 3])
-                .reshape((self.dimensions, self.dimensions))
-            )
+            op = operators[choice]
+            self.state = jnp.matmul(op, jnp.matmul(self.state, jnp.conj(op.T)))
             self.state = self.state / jnp.trace(self.state)
             if destructive:
                 self._set_measured()
